@@ -139,13 +139,13 @@ func replay(run *vc.Run) {
 
 func main() {
 	run := vc.New("C11")
-	run.Rule("one case = one eval.RunDSL call on instrumented roots after eval.Reset(). Directed: 13 minimal scripts (one per script kind). Exhaustive: every digraph on 1..4 labelled roots without self-dependencies (1+4+64+4096) x every registration order (n!), plus, as a separate class, every digraph with at least one self-dependency (n<=3: all orders; n=4: all 61440 graphs x 24 orders in thorough, x 2 PRNG-chosen orders in quick). Random: 5-6 roots (1-4 in a quarter of the cases), random DAG with shared/transitive dependencies (1 in 8 with extra arbitrary edges), 1-3 sets of 0-3 expressions with random Source/Preparer/Validator/Finalizer subsets, scripts appending expressions (sibling / later set / earlier set / new set), registering up to 3 new roots from inside DSLs (nested up to depth 2), ReportError during execution, validators returning plain / multi / wrapped / empty ValidationErrors. distinct = distinct (graph, order) or distinct expanded random case.")
+	run.Rule("one case = one eval.RunDSL call on instrumented roots after eval.Reset(). Directed: 13 minimal scripts (one per script kind). Exhaustive: every digraph on 1..4 labelled roots without self-dependencies (1+4+64+4096) x every registration order (n!), plus, as a separate class, every digraph with at least one self-dependency (n<=3: all orders; n=4: all 61440 graphs x 24 orders in thorough, x 2 PRNG-chosen orders in quick). Random: 5-6 roots (1-4 in a quarter of the cases), random DAG with shared/transitive dependencies (1 in 8 with extra arbitrary edges), 1-3 sets of 0-3 expressions with random Source/Preparer/Validator/Finalizer subsets, scripts appending expressions (sibling / later set / earlier set / new set), registering up to 3 new roots from inside DSLs (nested up to depth 2), ReportError during execution, validators returning plain / multi / wrapped / empty ValidationErrors or recording errors with ReportError, Prepare callbacks reporting errors. distinct = distinct (graph, order) or distinct expanded random case.")
 	run.Assume(
 		"a root listing itself in DependsOn is read as a dependency cycle of length 1 (it cannot come before itself); reported under its own key self-dependency-accepted, separately from longer cycles",
 		"for a cyclic graph only 'RunDSL returns an error' is demanded; callbacks made before the error are not judged",
 		"'all errors of a phase returned together' is read as: every error reported in the first failing phase (each carries a unique token) appears in the text of the returned error; execution and validation run to their end even after an error",
 		"Prepare/Validate callbacks after a failed execution are not forbidden by the statement and are not judged; only Finalize is",
-		"ReportError from Prepare or Finalize is outside the envelope (the interfaces document that they cannot fail)",
+		"a Validate that records its failure with eval.ReportError instead of returning it has failed validation all the same (judged like a returned error); errors reported with ReportError from a Prepare are errors of the prepare phase: they must all be in the returned error, whether Finalize may still run is not stated and not judged. ReportError from Finalize is outside the envelope (nothing runs after it that the statement constrains)",
 		"a Validate returning a non-nil *ValidationErrors that holds no error counts as success (goa's own idiom)",
 		"an expression appended, during execution, to a set its root has ALREADY handed to the engine ('earlier') is accepted executed or not (goa documents only appending to the set being executed; WalkSets owns the order): counted, not judged. Appending to the set being executed, to a set not handed out yet, or as a new set must lead to execution",
 		"DependsOn only names registered roots; a root registered during execution depends only on roots registered before it",
